@@ -341,6 +341,29 @@ def check(ctx):
               and kw(se_call, "thinning_warmup") == n("thinning_warmup"))
     ctx.ob("C16.R4", sd, "set_duration validates the Stan schedule through EpochManager and "
                          "forwards its arguments to the same-named parameters", ok)
+    # set_epochs: the user's configs, whatever iterable they come in, all reach the manager
+    from .common import single_pass_obligation
+    sep = method(repo, eb, "set_epochs")
+    rse = evaluate(repo, sep)
+    ep_par = sep.pos_params()[1]
+    st_e = [val for loc, val, _, cond in rse.stores if loc == ("a", SELF, "_epochs") and not cond]
+    ctx.ob("C16.R4", sep, "set_epochs stores EpochManager(<the configs it was given>) "
+                          "unconditionally", len(st_e) == 1 and is_call(st_e[0], EM)
+           and st_e[0][2] == (n(ep_par),) and not st_e[0][3],
+           detail=str([short(v) for v in st_e]), stmt="set_epochs store")
+    single_pass_obligation(ctx, "C16.R4", sep, ep_par, "EngineBuilder.set_epochs")
+    single_pass_obligation(ctx, "C16.R4", init, init.pos_params()[1], "EpochManager.__init__")
+    # an EpochConfig is a plain record: what the user wrote is what append() validates
+    ec = repo.cls("liesel.goose.epoch.EpochConfig")
+    hooks = sorted(m for m in ec.methods if m in (
+        "__post_init__", "__init__", "__new__", "__setattr__", "__getattribute__",
+        "__getattr__") or any("property" in d or "setter" in d
+                              for f_ in ec.methods[m] for d in f_.decorators()
+                              if m in ("type", "duration", "thinning")))
+    ctx.ob("C16.R1", ec, "EpochConfig stores its fields as given (no __post_init__ / __init__ / "
+                         "attribute hook that rewrites duration or thinning before the manager "
+                         "validates them)", not hooks, detail=str(hooks),
+           stmt=f"EpochConfig hooks {hooks}")
 
 
 def _is_arg_guard(a) -> bool:
